@@ -126,6 +126,8 @@ impl Search {
             .into(),
         };
 
+        #[cfg(rce_verif)]
+        verif::trace_limits(self, max_depth);
         self.iter_deep(evaluator, max_depth);
 
         self.stop();
